@@ -108,11 +108,17 @@ type State struct {
 	inlineDepth int
 	pendingAll bool
 	havocEpochBound Term // alloc counter at the last whole-heap havoc
+	localMaps []localMap // maps made by this function whose reference never leaves it
 	compBound map[string]Term // per component: alloc counter when it was last written or havoc'd
 	pendingBound []string
 	baseAlloc Term
 	visited  map[*ssa.Range]Term // ghost: keys already yielded by a map range
 	lastRange *ssa.Range
+}
+
+type localMap struct {
+	ref  Term
+	k, v types.Type
 }
 
 type deferred struct {
@@ -154,6 +160,7 @@ func (st *State) clone() *State {
 		compBound: make(map[string]Term, len(st.compBound)),
 		pendingBound: append([]string(nil), st.pendingBound...),
 		baseAlloc: st.baseAlloc,
+		localMaps: append([]localMap(nil), st.localMaps...),
 		havocEpochBound: st.havocEpochBound,
 		lastRange: st.lastRange,
 	}
@@ -231,6 +238,7 @@ type Exec struct {
 	pendingSelf *tv
 	constGlobals []string
 	usedAxioms map[string]bool
+	reified map[string]*Ptr // symbolic field addresses that were turned into reference terms
 }
 
 func (ex *Exec) arrComp(h *HeapView, elem types.Type) Term {
@@ -267,6 +275,9 @@ func (ex *Exec) define(st *State, prefix string, t Term) Term {
 	ex.counter++
 	name := fmt.Sprintf("%s_%d", prefix, ex.counter)
 	st.log = append(st.log, fmt.Sprintf("(define-fun %s () %s %s)", name, t.So, t.S))
+	if p, ok := ex.reified[t.S]; ok {
+		ex.reified[name] = p
+	}
 	return Term{name, t.So}
 }
 
